@@ -322,10 +322,8 @@ class LRI(dict):
         with self._lock:
             if self is other:
                 return True
-            if len(other) != len(self):
-                return False
-            if not isinstance(other, LRI):
-                return other == self
+            # NB: "other == self" would come straight back here for a
+            # plain dict, as LRI is a dict subclass
             return super().__eq__(other)
 
     def __ne__(self, other):
